@@ -123,10 +123,11 @@ LONG_ARGLISTS = [
 
 
 def arglists_thorough():
+    """all argument lists of length <= 2 over the 10 base kinds (111) + the 8 long lists"""
     out = [[]]
-    for k in BASE_KINDS:
+    for k in ALL_BASE_KINDS:
         out.append([k])
-    for a, b in itertools.product(BASE_KINDS, BASE_KINDS):
+    for a, b in itertools.product(ALL_BASE_KINDS, ALL_BASE_KINDS):
         out.append([a, b])
     return out + LONG_ARGLISTS
 
@@ -250,9 +251,7 @@ def c17_cases(tier):
     # thorough: structure product traits(1..4) x groups(0..2) x clash x second variant x config subset
     tr_plain = [trait(n, [meth(n.lower() + "_get", "ref", ["u64"], "u64"), meth(n.lower() + "_take", "own", [], "u64")]) for n in TRAIT_NAMES]
     tr_clash = [trait(n, [meth("get", "ref", ["u64"], "u64"), meth(n.lower() + "_take", "own", [], "u64")]) for n in TRAIT_NAMES]
-    cfgs = [None, {"default_container": "Box", "default_context": "Arc", "function_prefix": None},
-            {"default_container": "Mut", "default_context": None, "function_prefix": "cg"}]
-    for nt, ng, clash, second, cfg in itertools.product((1, 2, 3, 4), (0, 1, 2), (False, True), (False, True), cfgs):
+    for nt, ng, clash, second, cfg in itertools.product((1, 2, 3, 4), (0, 1, 2), (False, True), (False, True), all_configs()):
         trs = (tr_clash if clash else tr_plain)[:nt]
         names = [t["name"] for t in trs]
         groups = []
